@@ -1490,6 +1490,15 @@ func findCollector(p *Program) *ssa.Function {
 // successor k of block from raises the event bit. visit is called for every
 // instruction with the event bit of the state it is reached in.
 func exploreBoolStates(fn *ssa.Function, raise func(from *ssa.BasicBlock, k int) bool, visit func(in ssa.Instruction, ev bool)) {
+	exploreBoolStatesStep(fn, raise, nil, func(in ssa.Instruction, ev bool) bool {
+		visit(in, ev)
+		return ev
+	})
+}
+
+// exploreBoolStatesStep is exploreBoolStates with an event bit that instructions may set or clear: step is called for
+// every instruction with the bit of the state it is reached in and returns the bit after it.
+func exploreBoolStatesStep(fn *ssa.Function, raise func(from *ssa.BasicBlock, k int) bool, skipEdge func(from *ssa.BasicBlock, k int) bool, step func(in ssa.Instruction, ev bool) bool) {
 	if len(fn.Blocks) == 0 {
 		return
 	}
@@ -1583,8 +1592,9 @@ func exploreBoolStates(fn *ssa.Function, raise func(from *ssa.BasicBlock, k int)
 			continue
 		}
 		seen[st] = true
+		evOut := st.ev
 		for _, in := range b.Instrs {
-			visit(in, st.ev)
+			evOut = step(in, evOut)
 		}
 		ifi, isIf := b.Instrs[len(b.Instrs)-1].(*ssa.If)
 		for k, su := range b.Succs {
@@ -1600,7 +1610,10 @@ func exploreBoolStates(fn *ssa.Function, raise func(from *ssa.BasicBlock, k int)
 					}
 				}
 			}
-			ev := st.ev || raise(b, k)
+			if skipEdge != nil && skipEdge(b, k) {
+				continue
+			}
+			ev := evOut || (raise != nil && raise(b, k))
 			work = append(work, item{state{su, ev, string(val)}, b})
 		}
 	}
@@ -1744,4 +1757,104 @@ func ruleConsumerDrains(c *Check, p *Program, rule string) {
 	if n < 2 {
 		c.Fail(rule, "Reader#error-latch-reads", "", "the consumer's reads of the error latch are resolved", fmt.Sprintf("only %d call(s) of Blocks.ErrorR found in Reader.Read / Reader.WriteTo (expected one each)", n))
 	}
+}
+
+
+// ---------------------------------------------------------------------------
+// R08.18: a buffer that Writer.ReadFrom has handed to the block pipeline in
+// concurrent mode (Writer.write(buf, true): the worker returns it to the pool
+// after the block was written) is not returned to the pool by ReadFrom as well.
+// Explored over (block, "the current buffer has been handed over", boolean loop
+// variables): Writer.write raises the bit, fetching a fresh buffer clears it; a
+// release - a direct Put, or a deferred one when the function returns - with
+// the bit set must lie under the sequential guard.
+
+func ruleReadFromRelease(c *Check, p *Program, rule string) {
+	fn := findFn(c, p, rule, "", "Writer.ReadFrom")
+	if fn == nil {
+		return
+	}
+	sequential := func(b *ssa.BasicBlock) bool {
+		for _, a := range atomsOfBlock(b) {
+			if a.Kind == "call" && strings.HasSuffix(a.Name, "isNotConcurrent") && a.Val {
+				return true
+			}
+		}
+		return false
+	}
+	isPut := func(ci ssa.CallInstruction) bool { return calleeIs(ci, pkgBlock, "Put") }
+	// deferred releases: defer Put(x), or a deferred function literal that calls Put
+	var deferred []*ssa.Defer
+	allInstrs(fn, func(in ssa.Instruction) {
+		d, ok := in.(*ssa.Defer)
+		if !ok {
+			return
+		}
+		if isPut(d) {
+			deferred = append(deferred, d)
+			return
+		}
+		if t := deferTarget(d); t != nil && inModule(t) {
+			for _, ci := range callsIn(t) {
+				if isPut(ci) {
+					deferred = append(deferred, d)
+					return
+				}
+			}
+		}
+	})
+	nWrite, nPut := 0, 0
+	seenW := map[ssa.Instruction]bool{}
+	bad := ""
+	// the exploration assumes the concurrent mode (in sequential mode nothing is handed over): edges on which the mode
+	// test says "sequential" are not followed
+	seqEdge := func(b *ssa.BasicBlock, k int) bool {
+		ifi, ok := b.Instrs[len(b.Instrs)-1].(*ssa.If)
+		if !ok || len(b.Succs) != 2 {
+			return false
+		}
+		a := atomOf(ifi.Cond, k == 0)
+		return a.Kind == "call" && strings.HasSuffix(a.Name, "isNotConcurrent") && a.Val
+	}
+	exploreBoolStatesStep(fn, nil, seqEdge, func(in ssa.Instruction, handed bool) bool {
+		switch x := in.(type) {
+		case *ssa.RunDefers:
+			if handed && bad == "" {
+				for _, d := range deferred {
+					if !sequential(d.Block()) {
+						bad = p.InstrPos(d) + " (deferred; runs when ReadFrom returns)"
+					}
+				}
+			}
+		case ssa.CallInstruction:
+			if _, isDefer := in.(*ssa.Defer); isDefer {
+				return handed
+			}
+			switch {
+			case calleeIs(x, pkgRoot, "Writer.write"):
+				if !seenW[in] {
+					seenW[in] = true
+					nWrite++
+				}
+				return true
+			case calleeIs(x, pkgBlock, "BlockSizeIndex.Get"):
+				return false
+			case isPut(x):
+				if !seenW[in] {
+					seenW[in] = true
+					nPut++
+				}
+				if handed && !sequential(in.Block()) && bad == "" {
+					bad = p.InstrPos(in)
+				}
+			}
+		}
+		return handed
+	})
+	if nWrite == 0 {
+		c.Fail(rule, "Writer.ReadFrom#released-once", p.Pos(fn.Pos()), "the hand-over of the read buffer is resolved", "no call of Writer.write in Writer.ReadFrom (anchor unresolved)")
+		return
+	}
+	c.Sites += nWrite + nPut + len(deferred)
+	c.Cond(bad == "", rule, "Writer.ReadFrom#released-once", p.Pos(fn.Pos()), "outside the sequential mode ReadFrom does not release a buffer it has handed to the block pipeline (the worker releases it after the block was written)", fmt.Sprintf("%d hand-over(s), %d direct and %d deferred release(s): none reachable with a handed-over buffer outside the sequential guard", nWrite, nPut, len(deferred)), "the release at "+bad+" can run for a buffer that Writer.write has already handed to a compression goroutine: the pool gives it to another block while it is still being compressed and written, and it is released twice")
 }
